@@ -541,6 +541,43 @@ func c35GenTxn(t *rapid.T, typ protocol.TxType, ex *c35Set, opt c35GenOpt) (tran
 	return tx, created
 }
 
+// c35AddDecoyBox makes some app call of the group name the target's box *name* for a different app (never the target
+// box itself): availability of a box must depend on the owning app too.
+func c35AddDecoyBox(t *rapid.T, g *c35Group, x c35Target) bool {
+	var calls []int
+	for i := range g.Txns {
+		tx := &g.Txns[i]
+		if tx.Type == protocol.ApplicationCallTx && len(tx.Accounts)+len(tx.ForeignAssets)+len(tx.ForeignApps)+len(tx.Boxes) <= 4 && len(tx.Access) <= 8 {
+			calls = append(calls, i)
+		}
+	}
+	if len(calls) == 0 {
+		return false
+	}
+	i := c35Pick(t, "decoy-txn", calls)
+	tx := &g.Txns[i]
+	others := c35Allowed(c35NApp, func(p int) bool { return p == x.BoxApp })
+	q := c35AppIDs[c35Pick(t, "decoy-app", others)]
+	name := []byte(c35BoxNames[x.I])
+	eff := g.effApp(i)
+	if tx.Access != nil {
+		idx := uint64(0)
+		if q != eff {
+			tx.Access = append(tx.Access, transactions.ResourceRef{App: q})
+			idx = uint64(len(tx.Access))
+		}
+		tx.Access = append(tx.Access, transactions.ResourceRef{Box: transactions.BoxRef{Index: idx, Name: name}})
+		return true
+	}
+	idx := uint64(0)
+	if q != eff {
+		tx.ForeignApps = append(tx.ForeignApps, q)
+		idx = uint64(len(tx.ForeignApps))
+	}
+	tx.Boxes = append(tx.Boxes, transactions.BoxRef{Index: idx, Name: name})
+	return true
+}
+
 var c35OtherTypes = []protocol.TxType{
 	protocol.ApplicationCallTx, protocol.ApplicationCallTx, protocol.ApplicationCallTx, protocol.ApplicationCallTx,
 	protocol.PaymentTx, protocol.PaymentTx, protocol.AssetTransferTx, protocol.AssetTransferTx,
